@@ -268,7 +268,7 @@ def assigns(n, v):
     return False
 
 
-def pin_rule(ctx):
+def pin_rule(ctx, P='C05-PIN'):
     repo, cg = ctx.repo, ctx.cg
     n = 0
     for fn in repo.rule_funcs():
@@ -284,13 +284,13 @@ def pin_rule(ctx):
                             and x.args and norm(x.args[0]) == otxt]
                     qual = fn.qual
                     if not pins and qual in PIN_EXCEPTIONS:
-                        ctx.exception('C05-PIN', qual, PIN_EXCEPTIONS[qual])
-                        ctx.ob('C05-PIN.id-of-code-object-is-pinned', fn, c, True, 'excepted: ' + PIN_EXCEPTIONS[qual], node=c, nontrivial=False); continue
-                    ctx.ob('C05-PIN.id-of-code-object-is-pinned', fn, c, bool(pins),
+                        ctx.exception(P, qual, PIN_EXCEPTIONS[qual])
+                        ctx.ob(P + '.id-of-code-object-is-pinned', fn, c, True, 'excepted: ' + PIN_EXCEPTIONS[qual], node=c, nontrivial=False); continue
+                    ctx.ob(P + '.id-of-code-object-is-pinned', fn, c, bool(pins),
                            '' if pins else 'cache key id(%s) is built but %s is not passed to decompile()/get_lambda_args() in this function: '
                            'nothing keeps the code object alive, and after it is collected another lambda can get the same id and be served '
                            'this one\'s translation' % (norm(a), otxt), node=c)
-    ctx.floor('C05-PIN', n, 4, 'id(<code object>) keys')
+    ctx.floor(P, n, 4, 'id(<code object>) keys')
     gid = repo.fn('pony.utils.utils', 'get_codeobject_id')
     g = cg.cfg(gid)
     stores = [x for x in g.nodes if x.kind == 'stmt' and isinstance(x.ast, ast.Assign) and any(
@@ -298,13 +298,13 @@ def pin_rule(ctx):
     tests = {t.id for t in g.nodes if t.kind == 'test' and 'not in codeobjects' in norm(t.ast)}
     rr = g.reach([g.entry], avoid=stores, edge_ok=lambda x, y, lab: not (x in tests and lab == 'F'))
     ok = bool(stores) and g.exit.id not in rr
-    ctx.ob('C05-PIN.get_codeobject_id-stores-the-object', gid, stores[0].ast if stores else gid.node, ok,
+    ctx.ob(P + '.get_codeobject_id-stores-the-object', gid, stores[0].ast if stores else gid.node, ok,
            '' if ok else 'get_codeobject_id can return an id without keeping a reference to the code object')
-    pin_store_strong(ctx)
+    pin_store_strong(ctx, P)
     dec = repo.fn('pony.orm.decompiling', 'decompile')
     ks = [s for s in walk_no_nested(dec.node) if isinstance(s, ast.Assign) and any(dotted(t) == 'key' for t in s.targets)]
     ok = bool(ks) and all(norm(s.value).startswith('get_codeobject_id(') for s in ks)
-    ctx.ob('C05-PIN.ast_cache-keyed-by-pinned-id', dec, ks[0] if ks else dec.node, ok, '' if ok else 'decompile() keys ast_cache by %s' % [norm(s.value) for s in ks])
+    ctx.ob(P + '.ast_cache-keyed-by-pinned-id', dec, ks[0] if ks else dec.node, ok, '' if ok else 'decompile() keys ast_cache by %s' % [norm(s.value) for s in ks])
 
 
 def pin_store_strong(ctx, prefix='C05-PIN'):
